@@ -29,6 +29,10 @@ def rules(chk, db):
     tablerules.rules(chk, db, {'TS', 'TR', 'TL'})
     # every documented part of an encoding is demanded from the reader: all elements / members / the variant payload (also NIL)
     encrules.read_rules(chk, db, want=('ELT', 'RST'))
+    # a wrapper decoder (enum, Optional, Result, Variant, value wrapper) must demand each documented component through that
+    # component's own decoder: reading it as some other type consumes fewer bytes and a cut inside them goes unnoticed
+    chk.rule('CO', 'wrapper decoders are composed of exactly the documented component encodings', minimum=30)
+    encrules.composition(chk, db, 'CO', ('ReadPayload', 'Match'))
     c10.rules(chk, db, scope=lambda fn: 'body' in fn and fn['file'].startswith('nop/base/') or
               ('body' in fn and fn['file'] in ('nop/utility/bounded_reader.h',)), prefix='')
     for r in ('SD1', 'SD2', 'SD3', 'SD4'):
